@@ -77,10 +77,25 @@ def main():
         return cur["text"].copy()
 
     def m_ctx_deref(e, m, a):
-        # the context's fields: every slot answers as "the token is there"
-        tok = Ref({0: ("token",)}, 0, ())
+        # the context's own fields (IntContextExt / DoubleContextExt { base, sign, tok, ph }, UintContextExt { base, tok, ph }): the
+        # optional sign token is there exactly when the literal's text starts with '-', the number token's text is the literal
+        # without its sign; every other slot answers as "the token is there"
+        tok = Ref({0: ("token", "number")}, 0, ())
         box = [[tok]]
-        return Ref({0: [("Some", box)] * 8}, 0, ())
+        slots = [("Some", box)] * 8
+        mname = m.group(0)
+        if re.search(r"(Int|Double)ContextExt", mname):
+            sign_tok = Ref({0: ("token", "sign")}, 0, ())
+            slots = list(slots)
+            slots[1] = ("Some", [[sign_tok]]) if cur["text"].neg else ("None",)
+        return Ref({0: slots}, 0, ())
+
+    def m_token_text(e, m, a):
+        t = deref(e, a[0])
+        t = deref(e, t)
+        if isinstance(t, tuple) and t[0] == "token" and len(t) > 1 and t[1] == "number":
+            return cur["text"].copy(neg=False)
+        raise Unsupported("text of token %r" % (t,))
 
     def m_as_ref(e, m, a):
         r = a[0]
@@ -250,6 +265,9 @@ def main():
     extern = [
         (r"^<BaseParserRuleContext<'_, \w+ContextExt<'_>> as ParseTree<'_>>::get_text$", m_get_text),
         (r"^<BaseParserRuleContext<'_, \w+ContextExt<'_>> as Deref>::deref$", m_ctx_deref),
+        (r"^<GenericToken<Cow<'_, str>> as antlr4rust::token::Token>::get_text$", m_token_text),
+        (r"^Option::<.*>::(is_some|is_none)$", lambda e, m, a: (deref(e, a[0])[0] == "Some") == (m.group(1) == "is_some")),
+        (r"^<Box<GenericToken<Cow<'_, str>>> as (?:AsRef<GenericToken<Cow<'_, str>>>>::as_ref|Deref>::deref)$", lambda e, m, a: deref(e, a[0])[0][0] if isinstance(deref(e, a[0]), list) else a[0]),
         (r"^Option::<Box<GenericToken<Cow<'_, str>>>>::as_ref$", m_as_ref),
         (r"^Option::<Box<GenericToken<Cow<'_, str>>>>::as_deref$", lambda e, m, a: ("Some", deref(e, a[0])[1][0][0]) if deref(e, a[0])[0] == "Some" else ("None",)),
         (r"^Option::<&(?:Box<)?GenericToken<Cow<'_, str>>>?>::expect$", m_expect),
